@@ -1,14 +1,16 @@
 // c20gate is a transparent wrapper around the real go tool, handed to mage with -gocmd by
 // checks/c20.py.  It runs the real `go` with the same arguments, environment and standard
-// streams.  For the ONE sub-command named in VERIF_C20_GATE (e.g. "build") and only when
-// VERIF_C20_SYNC (a directory) and VERIF_C20_ID are set, it lets the launcher order the builds
-// of concurrent mage invocations deterministically:
+// streams.  For the sub-commands named in VERIF_C20_GATE (a comma separated list, e.g.
+// "build" or "version,env,build") and only when VERIF_C20_SYNC (a directory) and VERIF_C20_ID
+// are set, it lets the launcher hold a mage invocation before and after each of its go calls:
 //
-//	before the real command:  create <sync>/<id>.pre   and wait for <sync>/<id>.go-start
-//	after it has returned:    create <sync>/<id>.post  and wait for <sync>/<id>.go-ret
+//	before the real command:  create <sync>/<name>.pre   and wait for <sync>/<name>.go-start
+//	after it has returned:    create <sync>/<name>.post  and wait for <sync>/<name>.go-ret
 //
-// Everything else (version, env, list, ...) is passed straight through (syscall.Exec), so that
-// `go version` - which feeds mage's cache file name - and all other output are those of the real go.
+// where <name> is <id> for `build` and <id>.<sub-command> for the others (a second call of the
+// same sub-command finds the files of the first and passes).  Everything else is passed straight
+// through (syscall.Exec), so that `go version` - which feeds mage's cache file name - and all
+// other output are those of the real go.
 package main
 
 import (
@@ -16,6 +18,7 @@ import (
 	"os"
 	"os/exec"
 	"path/filepath"
+	"strings"
 	"syscall"
 	"time"
 )
@@ -55,12 +58,23 @@ func main() {
 	goBin := realGo()
 	args := os.Args[1:]
 	gate, sync, id := os.Getenv("VERIF_C20_GATE"), os.Getenv("VERIF_C20_SYNC"), os.Getenv("VERIF_C20_ID")
-	if gate == "" || sync == "" || id == "" || len(args) == 0 || args[0] != gate {
+	gated := false
+	if len(args) > 0 {
+		for _, g := range strings.Split(gate, ",") {
+			if g != "" && g == args[0] {
+				gated = true
+			}
+		}
+	}
+	if sync == "" || id == "" || !gated {
 		err := syscall.Exec(goBin, append([]string{"go"}, args...), os.Environ())
 		fmt.Fprintln(os.Stderr, "c20gate: exec:", err)
 		os.Exit(127)
 	}
 	base := filepath.Join(sync, id)
+	if args[0] != "build" {
+		base += "." + args[0]
+	}
 	touch(base + ".pre")
 	waitFor(base + ".go-start")
 	c := exec.Command(goBin, args...)
